@@ -132,7 +132,7 @@ where
     assert!(!c.f_overrun, "[C08] more pixel data than the window holds");
     let e = cfg.exp(x, y);
     if e == probe {
-        assert!(c.probe_writes == 1 && c.probe_val == col.wire(), "[C01][C05] pixel lands at the oriented, offset cell with its colour");
+        assert!(c.probe_writes == 1 && c.probe_val == col.wire(), "[C01][C05][C19] pixel lands at the oriented, offset cell with its colour");
     } else {
         assert!(c.probe_writes == 0, "[C01] no other cell changes");
     }
@@ -420,7 +420,7 @@ macro_rules! h {
 h!(c01_set_pixel_v1x1, 3, set_pixel_h::<_, u8, 0>(V565::<1, 1>::new()));
 //@ props=C01,C20,C05 inst="VModel<Rgb565,65535,65535>/u8/Serial4Line" bounds="same" timeout=300 mem=4
 h!(c01_set_pixel_vmax, 3, set_pixel_h::<_, u8, 0>(V565::<65535, 65535>::new()));
-//@ props=C01,C08,C20,C05 inst="VModel<Rgb565,240,320>/u8/Serial4Line" bounds="same" timeout=300 mem=4
+//@ props=C01,C08,C20,C05,C19 inst="VModel<Rgb565,240,320>/u8/Serial4Line" bounds="same" timeout=300 mem=4
 h!(c01_set_pixel_v240x320, 3, set_pixel_h::<_, u8, 0>(V565::<240, 320>::new()));
 //@ props=C01,C08 tier=thorough inst="VModel<Rgb565,1,65535>/u8/Parallel8Bit" bounds="same" timeout=600 mem=4
 h!(c01_set_pixel_v1xmax, 3, set_pixel_h::<_, u8, 1>(V565::<1, 65535>::new()));
@@ -450,7 +450,7 @@ h!(c01_fill_solid_v15x15, 3, fill_solid_h::<_, u8, 0>(V565::<15, 15>::new()));
 //@ props=C01,C02,C20 inst="VModel<Rgb565,240,320>/u8" bounds="same" timeout=900 mem=4
 h!(c01_fill_solid_v240x320, 3, fill_solid_h::<_, u8, 0>(V565::<240, 320>::new()));
 //@ props=C01,C02,C08,C20 tier=thorough inst="VModel<Rgb666,320,480>/u8/Parallel8Bit" bounds="same" timeout=1800 mem=6
-h!(c01_fill_solid_v320x480, 3, fill_solid_h::<_, u8, 1>(V666::<320, 480>::new()));
+h!(c01_fill_solid_v320x480, 5, fill_solid_h::<_, u8, 1>(V666::<320, 480>::new()));
 //@ props=C01,C02,C08,C20 tier=thorough required=no inst="VModel<Rgb565,65535,65535>/u8" bounds="same (16x16-bit multiplier equivalence; may hit the cap)" timeout=2400 mem=8
 h!(c01_fill_solid_vmax, 3, fill_solid_h::<_, u8, 0>(V565::<65535, 65535>::new()));
 //@ props=C01,C02,C08,C20 inst="VModel<Rgb565,240,320>/u8" bounds="loop-free: clear() on all cfgs, every cell inside and outside the window" timeout=400 mem=4
